@@ -130,6 +130,29 @@ def c05_oracle(case, out, item):
             return 'spec-mismatch'
     return None
 
+def nsdefault_items(rng, n):
+    """documents whose DTD supplies namespace declarations by ATTLIST default (D67; the documents of the C10 campaign),
+    queried with name tests, namespace-uri() and name().  The table both sides evaluate on is the dump of the
+    implementation, so the namespace rows of these documents are the implementation's (property C10 checks them against
+    Namespaces in XML): here the evaluator and its model run over such tables.  Ordinary attributes supplied by default
+    are left out (order key 0: listed finding D19)."""
+    from . import C10
+    out = []
+    uni = C10.small_universe(rng)
+    while len(out) < n:
+        if rng.random() < 0.4:
+            _, doc, dtd = C10.small_universe_dtd(rng, rng.choice(uni), rng.randrange(1000))
+        else:
+            doc, dtd = C10.random_dtd_case(rng)
+        dtd = C10.strip_attr_defaults(dtd)
+        if not dtd or not C10.nswf(C10.apply_defaults(dtd, doc)):
+            continue
+        ex = ['//p:*', '//d:*', '//q:*', '//@p:*', '//@d:*', 'count(//*[namespace-uri() = "u1"])', 'count(//@*[namespace-uri() = "u2"])',
+              '//*[namespace-uri() = ""]', 'name(//d:*)', 'local-name(//p:*[last()])', '//*[@d:zd]', '//p:a/@*', 'namespace-uri(//*[last()])']
+        out.append({'doc': C10.render_case_xml({'doc': doc, 'dtd': dtd}), 'exprs': rng.sample(ex, 6), 'merged': True,
+                    'binds': [('p', rng.choice(['u1', 'u2'])), ('q', 'u2'), ('d', rng.choice(['u1', 'u2']))], 'nsdefault': True})
+    return out
+
 def check(run):
     t0 = time.time()
     run.trusted = ['Coq 8.16.1 kernel + VM', 'Spec/XPath10.v + Spec/XPathCore.v: transcription of XPath 1.0 sections 2-5',
@@ -146,7 +169,9 @@ def check(run):
     ex = exhaustive_items(quick)
     if quick:
         ex = [it for k, it in enumerate(ex) if len(it['exprs']) and ('//' not in it['exprs'][0][2:] or k % 3 == 0)]   # the mid-path // family is thinned, the axis family is complete
-    items += ex + scalar_items() + interaction_items() + X.corpus_items('C05')
+    nsd = nsdefault_items(run.rng, 150 if quick else 2500)
+    run.extra['documents_with_attlist_namespace_defaults'] = len(nsd)
+    items += ex + scalar_items() + interaction_items() + X.corpus_items('C05') + nsd
     res, okm = X.evaluate(items, spec=True)
     if not okm:
         run.tie_breaks.append('model driver failed on some case')
